@@ -67,9 +67,22 @@ def stripe(name, T, S, W, tiers=('experimental',), timeout=1800, **kw):
 Q = ('quick', 'thorough')
 TH = ('thorough',)
 EX = ('experimental',)
+def kernel(name, T, S, W, tiers, timeout=900, **kw):
+    defs = {'VF_T': T, 'VF_S': S, 'VF_W': W, 'VF_L3': 0, 'VF_GLO': 1, 'VF_GHI': 4, 'VF_C13': 0, 'VF_HI': 2}
+    defs.update(kw)
+    return {'name': name, 'src': '../C13/stripe_kernel.cpp', 'engine': 'cbmc', 'defs': defs, 'unwind': S + 3, 'timeout': timeout,
+            'tiers': list(tiers),
+            'bounds': '%s: stripes of one adaptive parallel_for set up by the real calcChunkSize + initStripeState for %d workers, '
+                      'range size 1..%d, granularity 1..4, start anywhere (VF_HI=%s); every stripe claimed to exhaustion with the '
+                      'real stripeClaim (single thread); symbolic probe index' % (T, W, S, defs['VF_HI'])}
+
+
 INSTANCES = [
+    kernel('i32_kernel', 'int32_t', 8, 2, ('quick', 'thorough')),
+    kernel('u64_kernel_hi', 'uint64_t', 8, 2, ('quick', 'thorough'), VF_HI=1),
+    kernel('i64_kernel_hi', 'int64_t', 8, 2, ('thorough',), VF_HI=1),
     # static chunking: real parallel_for -> adjustChunkSizing/computeGranularity -> parallel_for_staticImpl
-    inst('i32_static', 'int32_t', 0, 4, 2, tiers=Q, timeout=280, thorough={'timeout': 1700}),
+    inst('i32_static', 'int32_t', 0, 4, 2, tiers=Q, timeout=700, thorough={'timeout': 1700}),
     # the instances below exceed the quick limits on the shared machine (measured: 4.5 min alone for int32 with size <= 8,
     # N <= 3; > 15 min with 8 solver processes in parallel); thorough runs them with a long timeout
     inst('i32_static_wide', 'int32_t', 0, 8, 3, tiers=TH, timeout=1700),
